@@ -410,6 +410,8 @@ def run(tier):
     deadline = t0 + (2400 if tier == "thorough" else 400)
     total = Result()
     total.merge(explore("%s-%s-headers" % (PROP, tier), header_gen(tier), check, chunk=200, deadline=deadline))
+    from ..core import explore_gcc
+    total.merge(explore_gcc("%s-%s-headers" % (PROP, tier), header_gen(tier), check, chunk=200, deadline=deadline))
     total.merge(explore("%s-%s-nesting" % (PROP, tier), nest_gen(tier), check, chunk=200, deadline=deadline))
     rule = ("(a) every for header over first/limit in {MIN, MIN+1, -2..2, MAX-1, MAX, null} x step in {absent, null, MIN, -1, 0, 1, 2, MAX} x "
             "{auto, asc, desc}; every short range (|limit-first| <= 3, steps 1..3) run to completion near 0, INT64_MAX and INT64_MIN, with bodies "
